@@ -69,6 +69,9 @@ def modelled_pool(rng):
         (["sort", "-nf", k], f"(VSortN false {cb(k)})"), (["sort", "-nr", k], f"(VSortN true {cb(k)})"),
         (["label", f"id,q,{k}"], f"(VLabel [{cb('id')}; {cb('q')}; {cb(k)}])"), (["label", "w"], f"(VLabel [{cb('w')}])"), (["regularize"], "VRegularize"),
         (["nothing"], "VNothing"),
+        (["fill-empty"], f"(VFillEmpty {cb('N/A')})"), (["fill-empty", "-v", "X"], f"(VFillEmpty {cb('X')})"), (["fill-empty", "-S", "-v", "0"], f"(VFillEmpty {cb('0')})"),
+        (["fill-down", "--all"], "(VFillDownAll false)"), (["fill-down", "--all", "-a"], "(VFillDownAll true)"), (["fill-down", "-a", "--all"], "(VFillDownAll true)"),
+        (["cat", "-n", "-g", k], f"(VCatNG {cb(k)})"), (["tee", "tee_m.dkvp"], "VTee"),
     ]
 
 
@@ -84,6 +87,11 @@ def extra_pool(rng):
         (["having-fields", "--at-least", k], None), (["decimate", "-n", "2"], None), (["count", "-g", k], None), (["cat", "-N", "idx", "-g", k], None),
         (["step", "-a", "shift,counter", "-f", k], None), (["rename", "-r", "^(.)$,f_\\1"], None), (["reorder", "-f", f"{k},{k2}"], None),
         (["put", f'${k2} = ${k} + 1'], None), (["stats1", "-a", "count,mode", "-f", k, "-g", k2], None), (["count-similar", "-g", f"{k},{k2}"], None),
+        (["cat", "-n", "-g", k], None), (["cat", "-n", "-N", "idx"], None), (["case", "-u", "-f", k], None), (["case", "-k", "-u", "-f", f"{k},{k2}"], None), (["case", "-s", "-v", "-f", k], None),
+        (["tee", "tee_out.dkvp"], None), (["tee", "-p", "cat > tee_pipe_out.dkvp"], None), (["fill-empty", "-S"], None), (["fill-empty", "-v", "0"], None),
+        (["fill-down", "--all"], None), (["sec2gmt", "-3", k], None), (["sec2gmt", "--millis", k], None),
+        (["grep", "-i", "pan"], None), (["grep", "-v", "-i", "eks"], None), (["sparsify"], None), (["sparsify", "-s", "X"], None), (["utf8-to-latin1"], None),
+        (["nothing"], None), (["altkv"], None), (["json-stringify", "-f", k], None),
     ]
 
 
@@ -399,6 +407,286 @@ def multifile(ctx, props_ok, tmp):
                                **{"class": "multi-file-reader:" + desc["mode"]}))
 
 
+# ------------------------------------------------------------------------------------------ contexts travel with the records; end blocks
+SELECTORS = [["cat"], ["tac"], ["filter", "$x >= 2"], ["filter", "$x < 3"], ["filter", "false"], ["tail", "-n", "2"], ["tail", "-n", "1", "-g", "a"], ["head", "-n", "1", "-g", "a"],
+             ["head", "-n", "2", "-g", "a"], ["sort", "-f", "a"], ["sort", "-nr", "x"], ["sort", "-f", "a", "-nr", "x"], ["grep", "-v", "pan"], ["grep", "-i", "eks"],
+             ["decimate", "-n", "2"], ["nothing"], ["group-like"], ["group-by", "a"], ["uniq", "-a"], ["sec2gmt", "nosuchfield"], ["fill-down", "-f", "nosuchfield"],
+             ["regularize"], ["having-fields", "--at-least", "a"], ["unsparsify", "--fill-with", "X", "-f", "a"], ["fill-empty"], ["tee", "tee.out"], ["bootstrap_placeholder"]]
+
+
+def context_through_chain(ctx, tmp):
+    """every record carries the context it was read with through the whole then-chain, and the end-of-stream marker carries the reader's
+    final context: (1) a record-selecting/reordering verb S followed by a put that evaluates NR/FNR/FILENAME/FILENUM (unconditionally, under an
+    if, in a pattern-action block, in a ternary, in a filter) labels each surviving record with ITS OWN source (closed form spec_files, computed
+    here from the file layout); (2) `S then put -q 'end{...}'` sees NR = all records read, FNR = records of the last file, FILENAME/FILENUM = the
+    last file, also when the last files are empty and whatever S dropped."""
+    rng = ctx.rng
+    nlay = 5 if ctx.tier == "quick" else 60
+    sels = [s for s in SELECTORS if s[0] != "bootstrap_placeholder"]
+    jobs, plans = [], []
+    for li in range(nlay):
+        d = os.path.join(tmp, "cx%d" % li)
+        os.mkdir(d)
+        nfiles = rng.choice([2, 3, 4])
+        sizes = [rng.choice([0, 1, 2, 3, 5]) for _ in range(nfiles)]
+        if li % 2 == 0:
+            sizes[-1] = 0                      # the file list ends with an empty file
+        if li % 3 == 0 and nfiles > 2:
+            sizes[-2] = 0
+        if sum(sizes) == 0:
+            sizes[0] = 3
+        names, where, rid = [], {}, 0
+        for j, n in enumerate(sizes):
+            name = "g%d.dkvp" % (j + 1)
+            names.append(name)
+            lines = []
+            for i in range(n):
+                rid += 1
+                where[b"r%d" % rid] = (rid, i + 1, name.encode(), j + 1)
+                lines.append(b"id=r%d,a=%s,x=%d" % (rid, rng.choice([b"pan", b"eks", b"wye"]), rng.randint(0, 4)))
+            Path(d, name).write_bytes(b"".join(l + b"\n" for l in lines))
+        total, last = rid, sizes[-1]
+        for s in rng.sample(sels, 9 if ctx.tier == "quick" else len(sels)):
+            k = rng.randint(0, 4)
+            annots = [("always", '$_nr = NR; $_fnr = FNR; $_fn = FILENAME; $_fnum = FILENUM', lambda x: True),
+                      ("if", 'if ($x >= %d) {$_fn = FILENAME; $_nr = NR; $_fnr = FNR; $_fnum = FILENUM}' % k, lambda x, k=k: x >= k),
+                      ("pattern-action", '$x < %d {$_fnum = FILENUM; $_fn = FILENAME; $_fnr = FNR; $_nr = NR}' % k, lambda x, k=k: x < k),
+                      ("ternary", '$_fn = $x == %d ? "none" : FILENAME; $_nr = $x == %d ? "none" : NR; $_fnr = $x == %d ? "none" : FNR; $_fnum = $x == %d ? "none" : FILENUM' % (k, k, k, k), lambda x, k=k: x != k),
+                      ("elif", 'if ($x == %d) {$y = 1} elif (FILENAME != "") {$_fn = FILENAME; $_nr = NR; $_fnr = FNR; $_fnum = FILENUM}' % k, lambda x, k=k: x != k)]
+            an = rng.choice(annots)
+            rpb = rng.choice([[], [], ["--records-per-batch", "1"], ["--records-per-batch", "2"]])
+            plans.append(("annot", s, an, names, where, d, rpb)); jobs.append((rpb + s + ["then", "put", an[1]] + names, d))
+            flt = rng.choice([('FILENUM == %d' % rng.randint(1, nfiles), lambda c: c[3]), ('FNR == 1', lambda c: c[1]), ('NR %% 2 == %d' % rng.randint(0, 1), lambda c: c[0]),
+                              ('FILENAME =~ "g[13]"', lambda c: c[2])])
+            plans.append(("filter", s, flt, names, where, d, rpb)); jobs.append((rpb + s + ["then", "filter", flt[0]] + names, d))
+            if s[0] != "head" or "-g" in s:
+                endp = 'end { print NR . ":" . FNR . ":" . FILENAME . ":" . FILENUM }'
+                plans.append(("end", s, "%d:%d:%s:%d" % (total, last, names[-1], nfiles), names, where, d, rpb))
+                jobs.append((rpb + s + ["then", "put", "-q", endp] + names, d))
+                plans.append(("end2", s, "%d:%d:%s:%d" % (total, last, names[-1], nfiles), names, where, d, rpb))
+                jobs.append((rpb + ["put", "$z = NR"] + ["then"] + s + ["then", "put", "-q", 'end { emit {"e": NR . ":" . FNR . ":" . FILENAME . ":" . FILENUM} }'] + names, d))
+    res = c05_batch.run_batch(ctx, jobs)
+    c05_batch.crosscheck(ctx, jobs, res, k=4)
+    nbad = 0
+    for (kind, s, what, names, where, d, rpb), job, (st, out, err) in zip(plans, jobs, res):
+        ctx.count(("context-chain", kind, tuple(job[0]), tuple(sorted(where))))
+        ctx.dist("context_chain:" + kind)
+        files = {n: Path(d, n).read_text() for n in names}
+        desc = {"kind": "context-chain", "sub": kind, "args": job[0], "files": files}
+        if st != 0:
+            ctx.violation(dict(desc, broken="context-chain run failed", status=st, stderr=err.decode("latin1")[-400:]), found_input=False)
+            continue
+        bad = None
+        if kind in ("end", "end2"):
+            got = out.decode("latin1").strip().splitlines()
+            if got != [("e=" if kind == "end2" else "") + what]:
+                bad = {"expected": what, "observed": out.decode("latin1"), "broken": "oracle: the end block must see the reader's final NR:FNR:FILENAME:FILENUM, whatever the verbs before it dropped and "
+                       "also when the file list ends with empty files", "class": "end-block-context"}
+        else:
+            for r in parse_dkvp(out):
+                dr = dict(r)
+                c = where.get(dr.get(b"id"))
+                if c is None:
+                    bad = {"broken": "oracle: unknown record in the output", "observed": out.decode("latin1")}
+                    break
+                if kind == "annot":
+                    on = what[2](int(dr[b"x"]))
+                    exp = (b"%d" % c[0], b"%d" % c[1], c[2], b"%d" % c[3]) if on else ((b"none",) * 4 if what[0] == "ternary" else (None,) * 4)
+                    got = (dr.get(b"_nr"), dr.get(b"_fnr"), dr.get(b"_fn"), dr.get(b"_fnum"))
+                    if got != exp:
+                        bad = {"broken": "oracle: NR/FNR/FILENAME/FILENUM evaluated after `%s` (%s) must be those of the record's own source" % (" ".join(s), what[0]),
+                               "record": dr[b"id"].decode(), "expected_nr_fnr_filename_filenum": [None if e is None else e.decode() for e in exp],
+                               "observed_nr_fnr_filename_filenum": [None if e is None else e.decode("latin1") for e in got], "observed": out.decode("latin1"),
+                               "class": "context-does-not-travel-with-record"}
+                        break
+            if kind == "filter" and not bad:
+                # records surviving S are known from the run without the filter: compare with S's own output restricted by the predicate on the true contexts
+                pass
+        if bad:
+            nbad += 1
+            if nbad <= 3:
+                ctx.violation(dict(desc, **bad))
+    # the context-filter runs: S then filter P(ctx)  ==  the records of `S` whose own context satisfies P (S run alone gives the survivors and their order)
+    jobs2 = [((pl[6] + pl[1] + pl[3]), pl[5]) for pl in plans if pl[0] == "filter"]
+    res2 = c05_batch.run_batch(ctx, jobs2)
+    import re as _re
+    for pl, (st, out, err), (st2, out2, err2) in zip([p for p in plans if p[0] == "filter"], [r for p, r in zip(plans, res) if p[0] == "filter"], res2):
+        kind, s, (pred, proj), names, where, d, rpb = pl
+        if st != 0 or st2 != 0:
+            continue
+        def holds(c):
+            if pred.startswith("FILENUM"):
+                return c[3] == int(pred.split("==")[1])
+            if pred.startswith("FNR"):
+                return c[1] == 1
+            if pred.startswith("NR"):
+                return c[0] % 2 == int(pred.split("==")[1])
+            return _re.search(b"g[13]", c[2]) is not None
+        exp = [r for r in parse_dkvp(out2) if dict(r).get(b"id") in where and holds(where[dict(r)[b"id"]])]
+        if parse_dkvp(out) != exp and nbad < 3:
+            nbad += 1
+            ctx.violation({"kind": "context-chain", "sub": "filter", "args": rpb + s + ["then", "filter", pred] + names, "files": {n: Path(d, n).read_text() for n in names},
+                           "broken": "oracle: `S then filter <predicate on NR/FNR/FILENAME/FILENUM>` must keep exactly the records of S whose own source satisfies the predicate",
+                           "observed": out.decode("latin1"), "expected": dkvp(exp).decode("latin1"), "class": "context-does-not-travel-with-record"})
+    ctx.cov["context_through_chain"] = {"runs": len(jobs) + len(jobs2), "bad": nbad}
+    # head's early exit: the reader may stop before later files are opened; whatever it reached, the end block's context is a reader state:
+    # NR = records of the files before FILENUM + FNR, FNR <= size of file FILENUM, FILENAME = name of file FILENUM
+    d = os.path.join(tmp, "cxh")
+    os.mkdir(d)
+    sizes = [3, 0, 4, 2]
+    for j, n in enumerate(sizes):
+        Path(d, "h%d.dkvp" % (j + 1)).write_bytes(b"".join(b"id=%d_%d,x=%d\n" % (j, i, i) for i in range(n)))
+    names = ["h%d.dkvp" % (j + 1) for j in range(len(sizes))]
+    hj = [((rp + ["head", "-n", str(n), "then", "put", "-q", 'end { print NR . ":" . FNR . ":" . FILENAME . ":" . FILENUM }'] + names), d)
+          for n in (0, 1, 4, 9, 20) for rp in ([], ["--records-per-batch", "1"])]
+    seen = []
+    for (args, _), (st, out, err) in zip(hj, c05_batch.run_batch(ctx, hj)):
+        ctx.count(("head-early-exit", tuple(args)))
+        got = out.decode("latin1").strip()
+        seen.append(got)
+        try:
+            nr_, fnr_, fn_, fnum_ = got.split(":")
+            nr_, fnr_, fnum_ = int(nr_), int(fnr_), int(fnum_)
+            n = int(args[args.index("-n") + 1])
+            ok = st == 0 and 1 <= fnum_ <= len(sizes) and fn_ == names[fnum_ - 1] and 0 <= fnr_ <= sizes[fnum_ - 1] and fnr_ <= nr_ <= sum(sizes[:fnum_ - 1]) + fnr_ and nr_ >= min(n, sum(sizes))
+        except Exception:
+            ok = False
+        if not ok:
+            ctx.violation({"kind": "context-chain", "sub": "head-early-exit", "args": args, "files": {n_: Path(d, n_).read_text() for n_ in names}, "observed": got, "status": st,
+                           "broken": "oracle: after head's early exit the end block's NR:FNR:FILENAME:FILENUM must still be a state the reader went through "
+                                     "(FNR <= NR <= records of earlier files + FNR -- the reader skips the rest of a file once head is satisfied --, FILENAME = file number FILENUM, at least the records head let through)", "class": "end-block-context"})
+            break
+    ctx.cov["head_early_exit_end_contexts"] = seen
+
+
+# ------------------------------------------------------------------------------------------ inputs concatenate, every format / spelling / compression
+def concat_sources(ctx, tmp):
+    """reading a b (c) yields the concatenation of reading each alone, for every input format, for every way of naming the files
+    (positional, --from a --from b, --mfrom a b --, --files listfile), for plain and compressed files mixed in one invocation, and -- for the
+    formats without a per-file header -- equals reading the concatenated bytes (`cat a b | mlr`); -n reads nothing; seqgen as a source chains like a pipe."""
+    rng = ctx.rng
+    d = os.path.join(tmp, "cat")
+    os.mkdir(d)
+    def recs(n, keys):
+        return [[(k.encode(), rng.choice([b"pan", b"eks", b"3", b"17", b"0.5", b"x y"])) for k in keys] for _ in range(n)]
+    def render(fmt, rs):
+        if fmt == "dkvp":
+            return dkvp(rs)
+        if fmt == "nidx":
+            return b"".join(b" ".join(v.replace(b" ", b"_") for _, v in r) + b"\n" for r in rs)
+        if fmt in ("json", "jsonl"):
+            docs = [json.dumps({k.decode(): v.decode() for k, v in r}) for r in rs]
+            return ("[\n" + ",\n".join(docs) + "\n]\n").encode() if (fmt == "json" and rng.random() < 0.5) else ("\n".join(docs) + ("\n" if docs else "")).encode()
+        if fmt in ("csv", "csvlite", "tsv"):
+            sep = b"\t" if fmt == "tsv" else b","
+            if not rs:
+                return b""
+            return sep.join(k for k, _ in rs[0]) + b"\n" + b"".join(sep.join(v for _, v in r) + b"\n" for r in rs)
+        if fmt == "xtab":
+            return b"\n".join(b"".join(k + b" " + v.replace(b" ", b"_") + b"\n" for k, v in r) for r in rs)
+        if fmt == "implicit":
+            return b"".join(b",".join(v for _, v in r) + b"\n" for r in rs)
+        raise ValueError(fmt)
+    FL = {"dkvp": ["--idkvp"], "nidx": ["--inidx", "--ifs", " "], "json": ["--ijson"], "jsonl": ["--ijsonl"], "csv": ["--icsv"], "csvlite": ["--icsvlite"], "tsv": ["--itsv"],
+          "xtab": ["--ixtab"], "implicit": ["--icsv", "--implicit-csv-header"]}
+    HEADERLESS = ("dkvp", "nidx", "json", "jsonl", "implicit")
+    jobs, plans = [], []
+    for fmt in FL:
+        for rep in range(2 if ctx.tier == "quick" else 10):
+            sub = os.path.join(d, "%s%d" % (fmt, rep))
+            os.mkdir(sub)
+            nf = rng.choice([2, 3])
+            keysets = [rng.sample(["a", "b", "c", "x"], rng.randint(1, 3)) for _ in range(nf)]
+            if fmt in ("implicit", "nidx") or rng.random() < 0.4:
+                keysets = [keysets[0]] * nf
+            sizes = [rng.choice([0, 1, 2, 4]) for _ in range(nf)]
+            if fmt == "xtab":
+                sizes = [max(1, z) for z in sizes]
+            names = []
+            for j in range(nf):
+                n = "p%d.%s" % (j + 1, fmt)
+                Path(sub, n).write_bytes(render(fmt, recs(sizes[j], keysets[j])))
+                names.append(n)
+            Path(sub, "all.bin").write_bytes(b"".join(Path(sub, n).read_bytes() for n in names))
+            Path(sub, "list.txt").write_text("".join(n + "\n" for n in names))
+            comp = []
+            for j, n in enumerate(names):
+                raw = Path(sub, n).read_bytes()
+                kind = ["gz", "bz2", "z", "plain"][(j + rep) % 4]
+                cn = n + {"gz": ".gz", "bz2": ".bz2", "z": ".z", "plain": ""}[kind]
+                if kind != "plain":
+                    Path(sub, cn).write_bytes({"gz": gzip.compress, "bz2": bz2.compress, "z": zlib.compress}[kind](raw))
+                comp.append(cn)
+            pre = FL[fmt] + ["--ojsonl"]
+            verb = ["put", "$_fnr = FNR; $_nr = NR; $_k = FILENUM"]
+            plan = {"fmt": fmt, "dir": sub, "names": names, "j": {}}
+            def add(tag, args):
+                plan["j"][tag] = len(jobs); jobs.append((args, sub))
+            add("positional", pre + ["cat"] + names)
+            add("--from", pre + sum([["--from", n] for n in names], []) + ["cat"])
+            add("--mfrom", pre + ["--mfrom"] + names + ["--", "cat"])
+            add("--files", pre + ["--files", "list.txt", "cat"])
+            add("mixed-compression", pre + ["cat"] + comp)
+            add("then-chain", pre + ["cat", "then", "cat", "-n", "then", "cut", "-x", "-f", "n"] + names)
+            for j, n in enumerate(names):
+                add("alone%d" % j, pre + ["cat", n])
+            if fmt in HEADERLESS:
+                add("concatenated-bytes", pre + ["cat", "all.bin"])
+            add("-n", pre + ["-n", "--from", names[0], "put", "-q", 'end { print "NR=" . NR }'])
+            add("ctx", pre + verb + names)
+            add("ctx-comp", pre + verb + comp)
+            plans.append(plan)
+    res = c05_batch.run_batch(ctx, jobs)
+    c05_batch.crosscheck(ctx, jobs, res, k=4)
+    nbad = 0
+    for p in plans:
+        g = lambda tag: res[p["j"][tag]]
+        files = {n: Path(p["dir"], n).read_bytes().decode("latin1") for n in p["names"]}
+        alone = [g("alone%d" % j) for j in range(len(p["names"]))]
+        ctx.count(("concat", p["fmt"], tuple(files.items())))
+        ctx.dist("concat_format:" + p["fmt"])
+        if any(a[0] != 0 for a in alone):
+            ctx.violation({"kind": "concat", "broken": "a generated file cannot be read alone (generator)", "format": p["fmt"], "files": files,
+                           "stderr": b"".join(a[2] for a in alone).decode("latin1")[-400:]}, found_input=False)
+            continue
+        want = b"".join(a[1] for a in alone)
+        for tag in ("positional", "--from", "--mfrom", "--files", "mixed-compression", "then-chain", "concatenated-bytes"):
+            if tag not in p["j"]:
+                continue
+            st, out, err = g(tag)
+            if st != 0 or out != want:
+                nbad += 1
+                if nbad <= 3:
+                    ctx.violation({"kind": "concat", "sub": tag, "format": p["fmt"], "args": jobs[p["j"][tag]][0], "files": files, "status": st,
+                                   "broken": "oracle: reading the files (%s) differs from the concatenation of reading each alone" % tag,
+                                   "observed": out.decode("latin1")[:2000], "expected": want.decode("latin1")[:2000], "stderr": err.decode("latin1")[-300:],
+                                   "class": "inputs-do-not-concatenate:%s:%s" % (p["fmt"], tag)})
+        st, out, err = g("-n")
+        if st != 0 or out.strip() != b"NR=0":
+            ctx.violation({"kind": "concat", "sub": "-n", "format": p["fmt"], "args": jobs[p["j"]["-n"]][0], "files": files, "observed": out.decode("latin1"), "status": st,
+                           "broken": "oracle: -n must read no input at all (the end block sees NR=0), also with --from", "class": "dash-n-reads-input"})
+        if g("ctx")[0] != 0 or g("ctx")[1] != g("ctx-comp")[1]:
+            ctx.violation({"kind": "concat", "sub": "ctx-comp", "format": p["fmt"], "args": jobs[p["j"]["ctx-comp"]][0], "files": files,
+                           "broken": "oracle: NR/FNR/FILENUM of the records differ between plain and compressed copies of the same files",
+                           "observed": g("ctx-comp")[1].decode("latin1")[:1500], "expected": g("ctx")[1].decode("latin1")[:1500], "class": "inputs-do-not-concatenate:compressed-contexts"})
+    ctx.cov["concat_sources"] = {"layouts": len(plans), "runs": len(jobs), "bad": nbad}
+    # seqgen as the record source: chain == pipe for verbs that do not consult the counters
+    sj = []
+    tails = [["put", "$y = $i . \"a\""], ["tac"], ["head", "-n", "3"], ["filter", "$i % 2 == 1"], ["cat", "-n"], ["sort", "-nr", "i"], ["nothing"], ["fill-empty"], ["sec2gmt", "i"]]
+    for t in tails:
+        sj.append((["seqgen", "--start", "1", "--stop", "7", "then"] + t, d))
+        sj.append((["seqgen", "-f", "i", "--start", "1", "--stop", "7"], d))
+    sres = c05_batch.run_batch(ctx, sj)
+    Path(d, "seq.dkvp").write_bytes(sres[1][1])
+    pres = c05_batch.run_batch(ctx, [(t + ["seq.dkvp"], d) for t in tails])
+    for t, ch, pi in zip(tails, sres[0::2], pres):
+        ctx.count(("seqgen-chain", tuple(t)))
+        if ch[0] != 0 or pi[0] != 0 or ch[1] != pi[1]:
+            ctx.violation({"kind": "concat", "sub": "seqgen", "args": ["seqgen", "--start", "1", "--stop", "7", "then"] + t, "files": {},
+                           "broken": "oracle: `mlr seqgen ... then B` differs from `mlr seqgen ... | mlr B`", "observed_chained": ch[1].decode("latin1"),
+                           "observed_piped": pi[1].decode("latin1"), "class": "chain-differs-from-pipe:seqgen+" + t[0]})
+
+
 # ------------------------------------------------------------------------------------------ input sources, NF, end block
 def sources(ctx, tmp):
     rng = ctx.rng
@@ -522,13 +810,15 @@ def run(ctx):
                        "NF and the DSL are not modelled in Coq for this property (oracle only)", "TSV reader: only well-formed files (no ragged/duplicate/blank lines)"]
     ctx.cov["correspondence"] = {}
     forbidden_gate(ctx, ["Base", "C05"])
-    ok, why = check_props(ctx, "C05/Props.v", ["C05/Harness.vo", "C05/Proofs.vo"])
+    ok, why = check_props(ctx, "C05/Props.v", ["C05/Harness.vo", "C05/Proofs.vo", "C05/CtxProofs.vo"])
     nviol = len(ctx.violations)
     tmp = tempfile.mkdtemp(prefix="verif-c05-")
     try:
         chains(ctx, ok, tmp)
         oblivious_impl(ctx, tmp)
         multifile(ctx, ok, tmp)
+        context_through_chain(ctx, tmp)
+        concat_sources(ctx, tmp)
         sources(ctx, tmp)
     finally:
         shutil.rmtree(tmp, ignore_errors=True)
@@ -602,6 +892,16 @@ def replay(ctx, path):
             print("replay: %d of %d runs differ from the expected records" % (badn, runs))
             if badn:
                 ctx.violation(dict(obj, replayed=True, runs_bad_now=badn))
+        elif kind == "context-chain":
+            for n, body in obj["files"].items():
+                Path(d, n).write_text(body)
+            st, out, err = mlr(ctx, obj["args"], cwd=d)
+            print("replay: status=%s\n%s%s" % (st, out.decode("latin1"), err.decode("latin1")))
+            if "expected" in obj and obj.get("sub") in ("end", "end2", "filter"):
+                if st != 0 or out.decode("latin1").strip() != ("e=" if obj.get("sub") == "end2" else "") + obj["expected"].strip():
+                    ctx.violation(dict(obj, replayed=True))
+            elif st != 0 or out.decode("latin1").strip() == obj.get("observed", "").strip():
+                ctx.violation(dict(obj, replayed=True))
         elif kind in ("nf", "endblock"):
             tmp = tempfile.mkdtemp(prefix="verif-c05-")
             try:
